@@ -60,3 +60,10 @@ CHECKS["C06"] = {
     "text": "425 (quick) / 657 (thorough) programs built from an array-section grammar (overlap, shift, stride, reversal, different lower bounds, constant indices) and an intrinsic grammar (ABS/SIGN/MIN/MAX, DOT_PRODUCT, MATMUL, SUM/PRODUCT/MINVAL/MAXVAL with dim/mask) in four embeddings; every lowering transformation is attempted on every matching node; inputs n=0..3 x scalar pairs (all 36 pairs of {-2..3} for scalar intrinsics).",
     "note": "E1 is the trusted semantics (array assignment evaluates the RHS first; exact rationals). ABS/SIGN/MIN/MAX are only attempted on real scalar arguments (documented domain). Open findings: ArrayAssignment2Loops (overlap/stride), Matmul/DotProduct (lower bounds), reduction2loop dropping the assignment.",
 }
+
+CHECKS["C05"] = {
+    "level": "model_checking",
+    "technique": "exhaustive enumeration of loop programs x target nodes x loop transformations (x option sets) on the real PSyclone code; every accepted result is executed by the E1 reference interpreter on all inputs n=0..5 (zero-trip, single-trip, negative and non-unit steps included) and its observable store compared with the original's",
+    "text": "quick: 1.8k programs / 35k attempts; thorough: 26.6k programs / 705k attempts (LoopFuse in both argument orders, LoopSwap, ChunkLoop chunksize 1-4, LoopTiling2D, Hoist, HoistLoopBoundExpr, ReplaceInductionVariables, FoldConditionalReturnExpressions; negative-literal-step program variants built through the PSyIR API). Store equality under an exact interpreter is the strongest oracle available without a proof of each transformation.",
+    "note": "E1 is the trusted semantics; post-loop values of loop variables and transformation temporaries are not observed; refusals and non-TransformationError exceptions are not judged. Open findings: zero-trip hoisting (HoistTrans, ReplaceInductionVariables), LoopFuse dependences/argument order, LoopSwap/LoopTiling without dependence analysis, ChunkLoop negative literal step. Fixed: ChunkLoop step not dividing chunk size.",
+}
